@@ -5,5 +5,5 @@ set -e
 cd "$(dirname "$0")"
 export CARGO_NET_OFFLINE=true
 [ -f harness/Cargo.lock ] || cp /repo/Cargo.lock harness/Cargo.lock
-(cd harness && cargo build --offline --release --bin hx && cargo build --offline --bin hx && (cargo build --offline --release --features hook --target-dir target-hook --bin hx || true))
+(cd harness && cargo build --offline --release --bin hx && cargo build --offline --bin hx && (RUSTFLAGS="--cfg espada_verif --check-cfg cfg(espada_verif)" cargo build --offline --release --features hook --target-dir target-hook --bin hx || true))
 python3 lib/setup_specs.py
